@@ -213,14 +213,16 @@ pub fn plan(quick: bool) -> Plan {
     let mut parts = vec![];
     for ping in [1u64, 2, 3] {
         for pong in [1u64, 2, 3] {
-            let horizon = if quick { (ping + pong + 3) as usize } else { (2 * ping + 2 * pong + 4) as usize };
+            // long enough for: first PING answered, second PING ignored, deadline passed by more than the slack
+            let horizon = if quick { (2 * ping + pong + 3) as usize } else { (2 * ping + 2 * pong + 4) as usize };
             parts.push(Part::Bfs(Box::new(KeepAlive { ping, pong, full: !quick, delay: 0 }), lim(horizon, 2_000_000, if quick { 5.0 } else { 200.0 })));
         }
     }
     // registration completed 1 s (and, for ping_timeout 3, 2 s) after the connection was opened:
     // the schedule counts from the registration, not from the accept
     for (ping, pong, delay) in [(2u64, 1u64, 1u64), (3, 1, 1), (3, 2, 2), (2, 2, 1)] {
-        let horizon = if quick { (ping + pong + 3) as usize } else { (2 * ping + 2 * pong + 4) as usize };
+        // long enough for: first PING answered, second PING ignored, deadline passed by more than the slack
+            let horizon = if quick { (2 * ping + pong + 3) as usize } else { (2 * ping + 2 * pong + 4) as usize };
         parts.push(Part::Bfs(Box::new(KeepAlive { ping, pong, full: !quick, delay }), lim(horizon, 2_000_000, if quick { 5.0 } else { 200.0 })));
     }
     Plan {
